@@ -195,6 +195,39 @@ def run(case):
                 if b[1] != a[1]:
                     return out.fail('c13.forwarding', '%s: call with %d positional and keywords %r: original sees %r, through the wrapper %r' % (
                         desc, k, sorted(kwargs), a[1], b[1]))
+    # ---- stacked wrapping: wraps() applied to the result of an earlier wraps() --------------------------
+    w1 = _call(lambda: wraps(f)(passthrough(f)))
+    if w1[0] == 'ok':
+        for variant in ('wraps', 'update_wrapper'):
+            r = _call(lambda: wraps(w1[1])(passthrough(w1[1]))) if variant == 'wraps' else _call(update_wrapper, passthrough(w1[1]), w1[1])
+            if r[0] != 'ok':
+                return out.fail('c13.wrap-raises', 'stacked %s around an already wrapped %s -> %r' % (variant, desc, r))
+            w2 = r[1]
+            if getattr(w2, '__wrapped__', None) is not w1[1]:
+                return out.fail('c13.wrapped-attr', '%s: after wrapping twice, __wrapped__ of the outer function is %r, not the function it wraps' % (
+                    desc, getattr(w2, '__wrapped__', None)))
+            s2 = _call(inspect.signature, w2, follow_wrapped=False)
+            if s2[0] != 'ok' or s2[1] != sig_f:
+                return out.fail('c13.signature', '%s: own signature after wrapping twice is %s, original %s' % (desc, s2[1] if s2[0] == 'ok' else s2, sig_f))
+            for attr in ('__name__', '__doc__', '__module__'):
+                if getattr(w2, attr, 'MISSING') != getattr(f, attr):
+                    return out.fail('c13.metadata', '%s: %s after wrapping twice is %r' % (desc, attr, getattr(w2, attr, 'MISSING')))
+            chain = []
+            cur = w2
+            while hasattr(cur, '__wrapped__') and len(chain) < 5:
+                cur = cur.__wrapped__
+                chain.append(cur)
+            if chain != [w1[1], f]:
+                return out.fail('c13.wrapped-attr', '%s: the __wrapped__ chain of a doubly wrapped function is %r' % (desc, chain))
+            # a few call shapes through both layers
+            for k, sub in list(call_shapes(case, names_kw))[::7]:
+                args = tuple(('P', i) for i in range(k))
+                kwargs = {n: ('K', n) for n in sub}
+                a = _call(lambda: drive(f(*args, **kwargs), is_async))
+                b = _call(lambda: drive(w2(*args, **kwargs), is_async))
+                if (a[0] == 'exc') != (b[0] == 'exc') or (a[0] == 'ok' and a != b) or (b[0] == 'exc' and b[1] != 'TypeError'):
+                    return out.fail('c13.forwarding', '%s: through two wrapping layers a call with %d positional and keywords %r gives %r, original %r' % (
+                        desc, k, sorted(kwargs), b, a))
     # ---- injected ---------------------------------------------------------
     orig = sig_summary(sig_f)
     inj_sets = [[n] for n in names_kw] + [list(c) for c in itertools.combinations(names_kw, 2)][:6] + [['zz_absent']]
